@@ -74,14 +74,47 @@ type TxSpec struct {
 	To      string   `json:"to,omitempty"` // contract address for call
 	Arg     uint64   `json:"arg,omitempty"`
 	Signed  bool     `json:"sg,omitempty"`
+	Data    string   `json:"d,omitempty"`   // call: input data (hex)
 	Eth     bool     `json:"eth,omitempty"` // create/call carried as a wrapped Ethereum transaction (type 188: nonce-checked)
 	NDelta  int      `json:"nd,omitempty"`  // Eth: offset from the sender's expected nonce (the harness resolves the base)
 	Salt    string   `json:"s,omitempty"`
 }
 
 // Programs: runtime code of the small generated contracts.
+// ProgFactory / ProgProber: a CREATE2 factory whose children's runtime code length depends on the
+// endowment (so the SAME init code, hence the same address, can carry different code after a
+// self-destruct), and a contract that records EXTCODESIZE of the address in its call data.
+const (
+	ProgFactory = 100
+	ProgProber  = 101
+)
+
+// FactoryInit is the init code the factory passes to CREATE2: runtime = CALLER SELFDESTRUCT followed by
+// CALLVALUE zero bytes.
+var FactoryInit = func() []byte {
+	var c evmasm.Code
+	c.Push(0x33ff).Push(0).Op(evmasm.MSTORE) // mem[30..32) = 33 ff
+	c.Op(evmasm.CALLVALUE).Push(2).Op(evmasm.ADD).Push(30).Op(evmasm.RETURN)
+	return c
+}()
+
+const FactorySalt = 0x5a17
+
 func Program(kind int, arg uint64) []byte {
 	var c evmasm.Code
+	if kind == ProgFactory {
+		// CREATE2(value = calldata word 0, init = FactoryInit, salt)
+		chunk := make([]byte, 32)
+		copy(chunk, FactoryInit)
+		c.PushBytes(chunk).Push(0x80).Op(evmasm.MSTORE)
+		c.Push(FactorySalt).Push(uint64(len(FactoryInit))).Push(0x80).Push(0).Op(evmasm.CALLDATALOAD).Op(evmasm.CREATE2, evmasm.POP, evmasm.STOP)
+		return c
+	}
+	if kind == ProgProber {
+		c.Push(0).Op(evmasm.CALLDATALOAD, evmasm.EXTCODESIZE).Push(1).Op(evmasm.SSTORE)
+		c.Push(0).Op(evmasm.CALLDATALOAD, evmasm.EXTCODESIZE).Push(0).Op(evmasm.MSTORE).Push(0x51e).Push(32).Push(0).Op(evmasm.LOG1, evmasm.STOP)
+		return c
+	}
 	switch kind % 8 {
 	case 0: // store + log
 		c.Sstore(1, arg+1).Log1(0xaa, arg).Op(evmasm.STOP)
@@ -167,7 +200,7 @@ func (s TxSpec) Build() *types.Transaction {
 			cd.AbiData = common.ToHex(evmasm.Deployer(Program(s.Prog, s.Arg)))
 		} else {
 			target = s.To
-			cd.AbiData = "0x"
+			cd.AbiData = "0x" + strings.TrimPrefix(s.Data, "0x")
 		}
 		typ, extra := int32(types.TransactionTypeContract), ""
 		if s.Eth {
